@@ -55,6 +55,10 @@ BLOCKS = {
     'scalar-expression-exogenous': ("x = 0.5*x + G + S  # see C:\\Users\\new \\u.txt\nErr_Tolerance = 0.01  # \"\"\" quoted\nMaxTime = 2\nexogenous\nG = [1., 2., 3.]\nS = 2*10.", 0.5, ['x'], ['G']),
     # iterates that overflow: the in-process solver raises (ConvergenceError); a run that ends "normally" with a non-finite value is not a solve
     'overflowing-iterates': ("x = x*x + 2.\nErr_Tolerance = 0.01\nMaxTime = 2", 0.0, [], []),
+    # block variables spelled like (or containing) the bare-word placeholders of the module template (ITERATOR, MAXTIME, VAR_DECLARATION): text put into the
+    # template must not itself be searched for placeholders
+    'template-placeholder-names': ("ITERATOR = 0.5*ITERATOR + G\nMAXTIME = 2.\nMY_VAR_DECLARATION = 3.\nz = MAXTIME + MY_VAR_DECLARATION + ITERATOR\nErr_Tolerance = 0.01\nMaxTime = 2\n"
+                                   "exogenous\nG = [1., 2., 3.]", 1.0, ['ITERATOR'], ['G']),
     # a block variable spelled like the Iterator's own "new value" names (NEW_<variable>) next to that variable
     'iterator-prefix-names': ("x = 2.\nNEW_x = 5.\nz = NEW_x + 1.\nErr_Tolerance = 0.01\nMaxTime = 2", 0.0, [], []),
     # division by a constant that is itself computed (b = a*2): its k=0 value is 0 in the module, and the module's sweep has no step-over for a transient 1/0
